@@ -14,3 +14,4 @@ import Glas.Props.C09UF
 #print axioms Glas.Props.C09UF.foldl_applyOp_wf
 #print axioms Glas.Props.C09UF.reachable_wf
 #print axioms Glas.Props.C09UF.get_total
+#print axioms Glas.Props.C09.C09_partial
